@@ -149,12 +149,66 @@ def shard_random(i, n, count):
         r = rng(PROP, 'random', k)
         feats = {'size': 2} if k % 10 == 0 else None
         prog, cov = gen.generate(r, feats)
+        if k % 3 == 1:
+            prog['layout'] = k      # single-statement blocks attached to their header line at a per-site choice
+            part.count('random-programs-with-attached-layout')
         ran = evaluate(w, prog, part, f'random:{k}')
         part.count('random-programs')
         if ran:
             part.count('random-programs-executed')
         for c, v in cov.items():
             part.count('gen:' + c, v)
+    w.close()
+    return part.dump()
+
+
+def value_position_expected(vname, cname, tup, k):
+    """What `subj(k)` of c02.value_position_shapes() means: the value of the construct where it is the function's value, else the trailing B."""
+    A, B = ((1, 2), (3, 4)) if tup else (1, 2)
+    if cname not in ('tail', 'return', 'tail-after-statement'):
+        return B
+    if vname in ('if-block', 'if-oneline'):
+        return A if k > 1 else B
+    if vname == 'if-block-nested':
+        return (A if k > 5 else B) if k > 1 else B
+    if vname == 'if-oneline-then-match':
+        return (A if k == 2 else B) if k > 1 else B
+    if vname in ('match', 'match-block-arms'):
+        return A if k == 1 else B
+    return B if k > 2 else ((k, k) if tup else k)      # handle: risky(k) raises for k > 2
+
+
+def shard_value_positions(i, n):
+    """value-producing compound constructs x value-consuming positions (text templates shared with C02): each accepted (shape, flag) is run
+    for five arguments and compared with the meaning written down above."""
+    from . import c02, pyrun
+    w = Worker(watchdog=60); part = Partial()
+    KS = (0, 1, 2, 3, 6)
+    for j, (name, src) in enumerate(c02.value_position_shapes().items()):
+        if j % n != i:
+            continue
+        _, vname, cname, tt = name.split(':')
+        for ann in (True, False):
+            res = w.pipe(src, annotate=ann)
+            part.count('value-position-cells')
+            if res.get('k') == 'err':
+                part.count('rejected'); part.evaluations += 1
+                continue
+            if res.get('k') != 'ok':
+                part.inconc('pipeline-' + str(res.get('k'))); continue
+            py = res['py'][0].replace('print("end")', '') + f'\nprint([subj(k) for k in {KS!r}])\n'
+            o = pyrun.run(py)
+            if o['status'] != 'ok':
+                part.inconc('python-' + o['status']); continue
+            exp = str([value_position_expected(vname, cname, tt == 'tuple', k) for k in KS])
+            got = o['lines'][-1] if o['lines'] else None
+            part.count('value-position-executed'); part.count('executed')
+            if o['exc'] or got != exp:
+                d = ('exception:' + str(o['exc'])) if o['exc'] else 'value-differs'
+                part.violation(f'value-position:{vname}:{cname}:{d}', {'kind': 'text-program', 'origin': name, 'annotate': ann, 'mamba': src, 'python': res['py'][0][:3000],
+                                                                       'expected': exp, 'observed': got, 'exception': o['exc'], 'detail': o.get('detail')})
+            else:
+                part.held(('value-position', vname, cname, tt, ann))
     w.close()
     return part.dump()
 
@@ -204,7 +258,8 @@ def finish(rep, tier, nrandom):
     floors = [(f'all {ncells} sweep cells evaluated', cov.get('sweep-cells', 0) == ncells),
               ('>= 90% of sweep cells executed under both flags', cov.get('sweep-cells-executed-both-flags', 0) >= 0.9 * ncells),
               ('>= 70% of random programs executed', cov.get('random-programs-executed', 0) >= 0.7 * nrandom),
-              ('>= 4 exception classes observed', len(exc_classes) >= 4)]
+              ('>= 4 exception classes observed', len(exc_classes) >= 4),
+              ('>= 200 value-position (shape, flag) pairs executed', cov.get('value-position-executed', 0) >= 200)]
     return rep.finish(floors, extra_cov={'programs': cov.get('sweep-cells', 0) + cov.get('random-programs', 0),
                                          'disagreements_checked': cov.get('disagreements-checked', 0),
                                          'generator_cells': dict(sorted(gencov.items())[:80])})
@@ -232,6 +287,7 @@ def main(tier):
                        'programs on which it declines are not judged', 'programs are closed, deterministic and terminate by construction']
     replay_entries(rep)
     merge_all(rep, run_shards(shard_sweep))
+    merge_all(rep, run_shards(shard_value_positions))
     nrandom = 240 if tier == 'quick' else 5000
     merge_all(rep, run_shards(shard_random, (nrandom,)))
     return finish(rep, tier, nrandom)
@@ -240,6 +296,11 @@ def main(tier):
 def replay(path):
     common.build()
     obj = json.load(open(path))['witness']
+    if obj.get('kind') == 'text-program':
+        d = shard_value_positions(0, 1)
+        hit = [v for v in d['violations'] if v[1].get('origin') == obj['origin']]
+        print(f'VIOLATION property={PROP} replay={path}' if hit else 'replay: held')
+        return 1 if hit else 0
     w = Worker(watchdog=60); part = Partial()
     evaluate(w, obj['prog'], part, 'replay', flags=[obj['annotate']], shrink=False)
     w.close()
